@@ -23,11 +23,12 @@ RULE = ("case = complete game (n in 1..10; integer, dyadic, float, negative, non
         "linearity (using the library's game addition), equality of the two entry points. Tolerance "
         "1e-10*(1+sum|v|). Distinct = hash(values); non-trivial = at least two different Shapley values. Additionally one "
         "SYMBOLIC execution per n=1..6 (7 in thorough): values are linear forms (vmon/linform.py) pushed through both real "
-        "entry points; every coefficient is compared with the orderings definition, which decides it for all real games of that n.")
+        "entry points; every coefficient is compared with the orderings definition, which decides it for all real games of that n. "
+        "Beyond the reach of the n! reference (n=11..18 quick, ..20 thorough): weighted sums of unanimity games against their closed form.")
 SHARDS = {"quick": 4, "thorough": 16}
 BUDGET = {"quick": 35, "thorough": 360}
 REQUIRED = ["orderings_definition_checks", "unit_basis_games", "graph_games", "linearity_checks", "symmetry_checks",
-            "null_player_checks", "entry_point_pairs", "symbolic_executions"]
+            "null_player_checks", "entry_point_pairs", "symbolic_executions", "large_n_unanimity_games"]
 
 
 def real_game(values):
@@ -183,6 +184,45 @@ def symbolic_case(ctx, n: int) -> None:
     ctx.case(("symbolic", n), True, sample={"n": n, "family": "symbolic", "player0_form_head": dict(sorted(forms[0].c.items())[:6])})
 
 
+def unanimity_case(ctx, n: int) -> None:
+    """Large player counts (beyond the n! reference): weighted sums of unanimity games have the closed form
+    phi_i = sum_T w_T / |T| [i in T]; both real entry points are compared with it for every player."""
+    from fractions import Fraction
+    rng = ctx.rng
+    size = 1 << n
+    carriers = []
+    for _ in range(3):
+        k = rng.randint(1, n)
+        carriers.append((sum(1 << p for p in rng.sample(range(n), k)), rng.randint(-4, 9)))
+    carriers.append(((1 << (n - 1)) | 1, 5))          # always involve the highest-numbered player
+    ids = np.arange(size)
+    vals = np.zeros(size)
+    for T, w in carriers:
+        vals += w * ((ids & T) == T)
+    case = {"n": n, "family": "unanimity_sum", "carriers": carriers, "values": []}
+    g = IncompleteCooperativeGame(n)
+    g.set_values(vals)
+    want = [sum(Fraction(w, popcount(T)) for T, w in carriers if T >> i & 1) for i in range(n)]
+    try:
+        players = list(range(n)) if n <= 14 else sorted(set(rng.sample(range(n), 4)) | {0, n - 1, 15 if n > 15 else 0, 16 if n > 16 else 0})
+        got = {i: float(compute_shapley_value_for_player(i, g)) for i in players}
+        if n <= 13:
+            allp = [float(x) for x in compute_shapley_value(g)]
+            got.update({("all", i): allp[i] for i in range(n)})
+    except Exception as exc:
+        ctx.violation("shapley-raised", f"{type(exc).__name__}: {exc} (unanimity sum, n={n})", case)
+        return
+    ctx.count("large_n_unanimity_games")
+    for key, val in got.items():
+        i = key[1] if isinstance(key, tuple) else key
+        if abs(val - float(want[i])) > 1e-9 * (1 + sum(abs(w) for _, w in carriers)):
+            ctx.violation("not-average-marginal-contribution", f"n={n}, weighted unanimity games {carriers}: player {i} gets {val!r}, "
+                          f"closed form {float(want[i])!r}", case)
+            break
+    ctx.case(("unanimity", n, tuple(carriers)), True,
+             sample={"n": n, "family": "unanimity_sum", "carriers": carriers, "checked_players": [k for k in got if not isinstance(k, tuple)]})
+
+
 def gen_game(rng, n):
     size = 1 << n
     fam = rng.choice(["int", "dyadic", "float", "negative", "big", "sparse"])
@@ -218,6 +258,9 @@ def run(ctx) -> None:
             v[s] = 1.0
             run_case(ctx, {"n": n, "family": "unit_basis", "values": v, "perm_max": perm_max})
             ctx.count("unit_basis_games")
+    for n in ([11, 13, 16, 17][ctx.shard % 4:][:1] + [18 if ctx.shard % 2 else 12]) if quick else range(11, 21):
+        if quick or n % ctx.nshards == ctx.shard % ctx.nshards or n in (17, 18):
+            unanimity_case(ctx, n)
     ns = [1, 2, 3, 3, 4, 4, 5, 5, 6, 6, 7, 8, 9] + ([10] if not quick else [])
     while not ctx.out_of_time(2.0):
         n = rng.choice(ns)
@@ -235,7 +278,9 @@ def run(ctx) -> None:
 
 
 def replay(ctx, case) -> None:
-    if case.get("symbolic"):
+    if case.get("family") == "unanimity_sum":
+        unanimity_case(ctx, case["n"])
+    elif case.get("symbolic"):
         symbolic_case(ctx, case["n"])
     else:
         run_case(ctx, case)
